@@ -78,7 +78,27 @@ type c11vOp struct {
 
 // ---------- keys and resolvers
 
-var c11vDIDs = []string{"did:nuts:AAAAAAAAAAAAAAAAAAAAAAAAAAAAAAAAAAAAAAAAAAAA", "did:nuts:BBBBBBBBBBBBBBBBBBBBBBBBBBBBBBBBBBBBBBBBBBBB", "did:nuts:CCCCCCCCCCCCCCCCCCCCCCCCCCCCCCCCCCCCCCCCCCCC"}
+const (
+	c11vA = "did:nuts:AAAAAAAAAAAAAAAAAAAAAAAAAAAAAAAAAAAAAAAAAAAA"
+	c11vB = "did:nuts:BBBBBBBBBBBBBBBBBBBBBBBBBBBBBBBBBBBBBBBBBBBB"
+	c11vC = "did:nuts:CCCCCCCCCCCCCCCCCCCCCCCCCCCCCCCCCCCCCCCCCCCC"
+	c11vW = "did:web:example.com:iam:alice"
+)
+
+// the first three are the parties of the ordinary cases; the others are DIDs that are textual prefixes of A, B, W
+// (an identifier minus its last character, the parent did:web, another domain that is a string prefix)
+var c11vDIDs = []string{c11vA, c11vB, c11vC, c11vW, c11vA[:len(c11vA)-1], c11vB[:len(c11vB)-1], "did:web:example.com", "did:web:example.co"}
+
+// c11vPrefixDIDs: for a DID, the other known DIDs that are proper string prefixes of it
+func c11vPrefixDIDs(d string) []string {
+	var out []string
+	for _, p := range c11vDIDs {
+		if p != d && strings.HasPrefix(d, p) {
+			out = append(out, p)
+		}
+	}
+	return out
+}
 
 type c11vKeys struct {
 	priv map[string]*ecdsa.PrivateKey // kid -> key
@@ -333,7 +353,12 @@ type c11vGen struct {
 	hosts []string
 }
 
-func (g *c11vGen) did() string { return c11vDIDs[g.rng.Intn(2)] }
+func (g *c11vGen) did() string {
+	if g.rng.Intn(4) == 0 {
+		return []string{c11vW, c11vDIDs[4], c11vDIDs[6]}[g.rng.Intn(3)]
+	}
+	return c11vDIDs[g.rng.Intn(2)]
+}
 
 func (g *c11vGen) credID() string {
 	// ids prefixed by A or B (issuer chosen independently when verifying: foreign prefixes occur)
@@ -350,6 +375,11 @@ func (g *c11vGen) next() c11vOp {
 		other := c11vDIDs[0]
 		if prefix == other {
 			other = c11vDIDs[1]
+		}
+		if pre := c11vPrefixDIDs(prefix); len(pre) > 0 && r.Intn(5) == 0 {
+			// a party whose DID is a proper textual prefix of the id's DID revokes with its own, resolvable key
+			p := pre[r.Intn(len(pre))]
+			return c11vOp{Op: "vregister", Subject: subject, Issuer: p, VM: p + "#k1", Signer: p + "#k1"}
 		}
 		op := c11vOp{Op: "vregister", Subject: subject, Issuer: prefix, VM: prefix + "#k1", Signer: prefix + "#k1"}
 		switch r.Intn(16) {
